@@ -258,6 +258,8 @@ class Acc:
             self.violations.append(line)
 
     def add_harness(self, summ, viol, leg, traces_key="runs", count_nontrivial=True):
+        for v in viol:
+            log(v)              # the harness already wrote the replay file; the line must reach stdout
         self.violations += viol
         if summ:
             self.traces += summ.get(traces_key, 0)
